@@ -1,8 +1,262 @@
-import Magog.Model.Eval
-import Magog.Model.Time
+import Magog.Lemmas.UciTotal
+import Magog.Lemmas.FenCount
+import Magog.Lemmas.Inv
 
-/-! Property C17 — theorems (see DESIGN §5). -/
+/-! Property C17 — no input line can crash the engine: the command interpreter is total on arbitrary
+    byte strings.
+
+`Model.uciStep ops st line` (Magog/Model/Uci.lean) models `ParseInputLine` of engine/uci.go branch by branch over
+`Bytes = List Nat`; every index / slice expression, nil dereference and division of uci.go is an explicit
+`Except.error (Panic.…)` in the model. The heavy engine operations are the parameter record `EngineOps`; the
+Unicode-table-dependent library functions `strings.ToLower` / `strings.TrimSpace` are the parameter `ops.str`
+about which NOTHING is assumed. The model is tied to the real code by `uci_diff.py` (sessions of
+grammar-directed and random-byte lines, model vs `hdrv ucihex`).
+
+* `uciStep_total`: for EVERY byte string `line`, every state satisfying `StateOk`, under the UCI precondition
+  `Pre` (move lists of `position … moves` are legal at their positions — nothing else), the interpreter
+  returns normally and keeps `StateOk` (in particular `currmoveLogInterval ≠ 0`, the divisor of the search).
+  Hypothesis `OpsTotal ops G Legal`: the engine operations return normally on positions satisfying `G`
+  (discharged by C08 / C02 / C18 for the real operations, see `modelOps_total`).
+* `uciStep_total_apply`: the same with legality formalised through the model (`LegalByApply`: `applyMove` is
+  `.ok` along the list and keeps `G`), where `OpsTotal`'s clause about `applyMove` is void.
+* `session_total`, `session_keeps_answering`: any list of lines from the state of a fresh process; afterwards
+  `isready` is still answered with `readyok`.
+* `goTokens_total`: `doGo`'s token scanner + deadline arithmetic on every token list.
+* `position_keeps_old`: a rejected FEN keeps the old position (also when followed by a move list).
+* regression lines of the historical crashes, evaluated: `go depth`, `go wtime`, `go movestogo 0 wtime 1000`,
+  `setoption name currmoveLogInterval value 0`, `eval` without a position, `position garbage moves e2e4`,
+  `perft 250`, `perft -1`. -/
 
 namespace Magog.Props.C17
+open Magog Magog.Model Magog.UciTotal Magog.FenSpec
+
+/-! ## the `go` scanner -/
+
+/-- `doGo`'s token loop and deadline arithmetic return normally on EVERY token list (no `tokens[i+1]`
+    index panic, no division by a zero `movestogo`). -/
+theorem goTokens_total (blackToMove : Bool) (tokens : List Bytes) : ∃ r, goTokens blackToMove tokens = .ok r :=
+  UciTotal.goTokens_total blackToMove tokens
+
+theorem goParams_total (blackToMove : Bool) (goCommand : Bytes) : ∃ r, goParams blackToMove goCommand = .ok r :=
+  UciTotal.goParams_total blackToMove goCommand
+
+example : goTokens true [strBytes "depth"] = .ok none := by decide +kernel
+example : goTokens false [strBytes "movestogo", strBytes "0", strBytes "wtime", strBytes "1000"] = .ok none := by
+  decide +kernel
+example : goTokens false [strBytes "wtime", strBytes "1000", strBytes "movestogo", strBytes "1"] = .ok (some ⟨950, 40⟩) := by
+  decide +kernel
+
+/-! ## one line -/
+
+/-- **C17, one line.** For every byte string `line`: if the engine operations are total on `G`-positions,
+    the state is well-formed and the line satisfies the UCI precondition, `ParseInputLine` returns normally
+    and the state stays well-formed. -/
+theorem uciStep_total {ops : EngineOps} {G : Position → Prop} {Legal : Position → Move → Prop}
+    (ho : OpsTotal ops G Legal) {st : UciState} (hst : StateOk G st) (line : Bytes) (hpre : Pre ops Legal st line) :
+    ∃ st' out, uciStep ops st line = .ok (st', out) ∧ StateOk G st' :=
+  UciTotal.uciStep_total ho hst hpre
+
+/-- the same with legality read through the model: every listed move applies without panic and keeps `G` -/
+theorem uciStep_total_apply {ops : EngineOps} {G : Position → Prop}
+    (start : G ops.startPos) (fen : ∀ s p, parseFen s = .ok (.ok p) → G p)
+    (eval : ∀ p, G p → ∃ v, ops.evalOp p = .ok v)
+    (perft : ∀ p d, G p → 0 < d → d < Gen.plyBufferCapacity → ∃ r, ops.perftDivOp p d = .ok r)
+    (tperft : ∀ p d, G p → 0 < d → d < Gen.plyBufferCapacity → ∃ r, ops.tperftDivOp p d = .ok r)
+    {st : UciState} (hst : StateOk G st) (line : Bytes) (hpre : Pre ops (LegalByApply ops G) st line) :
+    ∃ st' out, uciStep ops st line = .ok (st', out) ∧ StateOk G st' :=
+  UciTotal.uciStep_total (opsTotal_byApply start fen eval perft tperft) hst hpre
+
+/-- every line that is not a `position` command satisfies the precondition -/
+theorem pre_of_not_position {ops : EngineOps} {Legal : Position → Move → Prop} {st : UciState} {line : Bytes}
+    (h : hasPrefix line Gen.uPosition_bytes = false) : Pre ops Legal st line :=
+  UciTotal.pre_of_not_position h
+
+/-- How the real engine operations enter: the hypotheses are statements about the existing model functions
+    (`evaluate`, `perftDivide` over `perft`, `applyUciMove`, `parseFen`), to be supplied by C08 / C02 / C18. -/
+theorem modelOps_total {blend : Blend} {tostr : Position → M Bytes} {G : Position → Prop} {Legal : Position → Move → Prop}
+    (hstart : G startPosition) (hfen : ∀ s p, parseFen s = .ok (.ok p) → G p)
+    (heval : ∀ p, G p → ∃ v, evaluate blend p 0 = .ok v)
+    (hperft : ∀ p d, G p → 0 < d → d < Gen.plyBufferCapacity →
+      ∃ r, perftDivide Killers.empty Gen.plyBufferCapacity p d = .ok r)
+    (htperft : ∀ p d, G p → 0 < d → d < Gen.plyBufferCapacity →
+      ∃ r, tperftDivide Killers.empty Gen.plyBufferCapacity p d = .ok r)
+    (happly : ∀ p mv, G p → Legal p mv → ∃ p', applyUciMove p mv = .ok p' ∧ G p') :
+    OpsTotal (modelOps blend tostr) G Legal :=
+  ⟨hstart, hfen, heval, hperft, htperft, happly⟩
+
+/-! ## sessions -/
+
+/-- **C17, sessions.** From the state of a freshly started process, every finite list of byte strings whose
+    `position … moves` commands list legal moves is processed without panic, one output list per line, and
+    the final state is well-formed. -/
+theorem session_total {ops : EngineOps} {G : Position → Prop} {Legal : Position → Move → Prop}
+    (ho : OpsTotal ops G Legal) (lines : List Bytes) (hpre : SessionPre ops Legal UciState.init lines) :
+    ∃ st' outs, uciRun ops UciState.init lines = .ok (st', outs) ∧ StateOk G st' ∧ outs.length = lines.length :=
+  uciRun_total ho lines UciState.init (stateOk_init G) hpre
+
+/-- `isready` is answered with `readyok` in every state (and allocates the search object if there is none). -/
+theorem isready_answers (ops : EngineOps) (st : UciState) :
+    uciStep ops st Gen.uIsReady_bytes = .ok ({ st with searchAllocated := true }, [.readyok]) := by
+  rw [uciStep, if_pos (by decide)]
+  rfl
+
+/-- after any such session the engine still answers `isready` with `readyok` -/
+theorem session_keeps_answering {ops : EngineOps} {G : Position → Prop} {Legal : Position → Move → Prop}
+    (ho : OpsTotal ops G Legal) (lines : List Bytes) (hpre : SessionPre ops Legal UciState.init lines) :
+    ∃ st' outs st'', uciRun ops UciState.init lines = .ok (st', outs) ∧
+      uciStep ops st' Gen.uIsReady_bytes = .ok (st'', [.readyok]) ∧ StateOk G st'' := by
+  obtain ⟨st', outs, h, hst, _⟩ := session_total ho lines hpre
+  exact ⟨st', outs, _, h, isready_answers ops st', hst.1, hst.2⟩
+
+/-! ### the hypotheses are satisfiable: a concrete session
+
+`demoOps`: the real string functions, start position, FEN loader and `applyUciMove` of the model; evaluation and
+perft are stubs (their totality on real positions is the business of C02 / C18). `DemoG` is the shared position
+invariant `Inv` (or, for loaded positions, what C08 proves about them). The session mixes legal move lists
+(incl. a double push, so `applyUciMove` reconstructs the en-passant square), malformed lines, boundary numerals,
+a rejected FEN followed by a move list, and random bytes. -/
+
+def demoOps : EngineOps :=
+  { str := goStrEnv, startPos := startPosition, evalOp := fun _ => pure 0, perftDivOp := fun _ _ => pure [],
+    tperftDivOp := fun _ _ => pure [], applyMove := applyUciMove, tostrOp := fun _ => pure [] }
+
+def DemoG (p : Position) : Prop := Inv p ∨ FenInv p
+
+theorem demoOps_total : OpsTotal demoOps DemoG (LegalByApply demoOps DemoG) :=
+  opsTotal_byApply (Or.inl inv_startPosition)
+    (fun s p h => by
+      obtain ⟨r, hr, hspec⟩ := FenLemmas.parseFen_spec s
+      rw [h] at hr
+      cases hr
+      exact Or.inr (hspec p rfl).1)
+    (fun _ _ => ⟨0, rfl⟩) (fun _ _ _ _ _ => ⟨[], rfl⟩) (fun _ _ _ _ _ => ⟨[], rfl⟩)
+
+def demoSession : List Bytes :=
+  [strBytes "eval", strBytes "go depth", strBytes "position startpos moves e2e4 e7e5",
+   strBytes "go depth", strBytes "go movestogo 0 wtime 1000", strBytes "setoption name currmoveLogInterval value 0",
+   strBytes "position garbage moves e2e4", strBytes "perft 250", strBytes "perft -1", strBytes "perft 2",
+   strBytes "position fen r3k2r/8/8/8/8/8/8/R3K2R w KQkq - 0 1 moves e1g1", strBytes "eval",
+   strBytes "position startpos moves", strBytes "position  startpos   moves  e2e4", [255, 0, 300, 32, 9],
+   strBytes "tostr", strBytes "stop", strBytes "isready", strBytes "stop", strBytes "quit"]
+
+set_option maxRecDepth 100000 in
+theorem demoSession_pre : SessionPre demoOps (LegalByApply demoOps DemoG) UciState.init demoSession :=
+  sessionPre_of_B (g := invB) (fun _ h => Or.inl (inv_of_invB h)) demoSession UciState.init (by decide +kernel)
+
+example : ∃ st' outs, uciRun demoOps UciState.init demoSession = .ok (st', outs) ∧ StateOk DemoG st' ∧
+    outs.length = demoSession.length :=
+  session_total demoOps_total demoSession demoSession_pre
+
+example : Pre demoOps (LegalByApply demoOps DemoG) UciState.init (strBytes "position startpos moves g1f3") :=
+  pre_of_preB (g := invB) (fun _ h => Or.inl (inv_of_invB h)) (by decide +kernel)
+
+/-- the precondition is not vacuous: a move list with an illegal move fails the Boolean test
+    (here the model of `ApplyUciMove` panics, as the real code does) -/
+example : preB demoOps invB UciState.init (strBytes "position startpos moves e2e4 e1e8") = false := by decide +kernel
+
+/-! ## a rejected FEN keeps the old position -/
+
+/-- Whenever a `position` command answers `invalid FEN: …` — with or without a move list after the FEN — the
+    current position, the option value, the search object and the quit flag are what they were: in particular a
+    following move list was NOT applied to the old position. -/
+theorem position_keeps_old {ops : EngineOps} {st st' : UciState} {line : Bytes} {out : List UOut} {e : FenError}
+    (hline : hasPrefix line Gen.uPosition_bytes = true) (h : uciStep ops st line = .ok (st', out))
+    (he : UOut.invalidFen e ∈ out) :
+    st'.pos = st.pos ∧ st'.logInterval = st.logInterval ∧ st'.searchAllocated = st.searchAllocated ∧ st'.quit = st.quit := by
+  rw [uciStep_position' hline] at h
+  exact doPosition_keeps_old h he
+
+/-! ## regression lines (the historical crashes), for ANY engine operations and ANY state
+
+The string functions are the ones the driver runs (`ops.str = goStrEnv`); everything else is arbitrary. -/
+
+section regression
+variable (startPos : Position) (evalOp : Position → M Int) (perftDivOp tperftDivOp : Position → Nat → M (List (Move × Nat)))
+  (applyMove : Position → Move → M Position) (tostrOp : Position → M Bytes)
+  (pos : Option Position) (p : Position) (sa : Bool) (li : Int) (q : Bool) (k : Killers)
+
+local notation "OPS" => (EngineOps.mk goStrEnv startPos evalOp perftDivOp tperftDivOp applyMove tostrOp)
+
+theorem bytes_go_depth : strBytes "go depth" = [103, 111, 32, 100, 101, 112, 116, 104] := by decide +kernel
+theorem bytes_go_wtime : strBytes "go wtime" = [103, 111, 32, 119, 116, 105, 109, 101] := by decide +kernel
+theorem bytes_go_mtg0 : strBytes "go movestogo 0 wtime 1000" =
+    [103, 111, 32, 109, 111, 118, 101, 115, 116, 111, 103, 111, 32, 48, 32, 119, 116, 105, 109, 101, 32, 49, 48, 48, 48] := by
+  decide +kernel
+theorem bytes_setoption0 : strBytes "setoption name currmoveLogInterval value 0" =
+    [115, 101, 116, 111, 112, 116, 105, 111, 110, 32, 110, 97, 109, 101, 32, 99, 117, 114, 114, 109, 111, 118, 101, 76,
+     111, 103, 73, 110, 116, 101, 114, 118, 97, 108, 32, 118, 97, 108, 117, 101, 32, 48] := by decide +kernel
+theorem bytes_perft250 : strBytes "perft 250" = [112, 101, 114, 102, 116, 32, 50, 53, 48] := by decide +kernel
+theorem bytes_perftm1 : strBytes "perft -1" = [112, 101, 114, 102, 116, 32, 45, 49] := by decide +kernel
+theorem bytes_eval : strBytes "eval" = kwEval := by decide +kernel
+
+/-- `go depth` (keyword without a value; was: index out of range [1] with length 1): no search is started,
+    nothing changes except that the search object now exists -/
+theorem go_depth_no_value :
+    uciStep OPS ⟨some p, sa, li, q, k⟩ (strBytes "go depth") = .ok (⟨some p, true, li, q, k⟩, []) := by
+  rw [bytes_go_depth]; rfl
+
+/-- `go wtime` (was: index out of range) -/
+theorem go_wtime_no_value :
+    uciStep OPS ⟨some p, sa, li, q, k⟩ (strBytes "go wtime") = .ok (⟨some p, true, li, q, k⟩, []) := by
+  rw [bytes_go_wtime]; rfl
+
+/-- `go movestogo 0 wtime 1000` (was: integer divide by zero in `calcEndtime`): rejected, no search -/
+theorem go_movestogo_zero :
+    uciStep OPS ⟨some p, sa, li, q, k⟩ (strBytes "go movestogo 0 wtime 1000") = .ok (⟨some p, true, li, q, k⟩, []) := by
+  rw [bytes_go_mtg0]; rfl
+
+/-- `go …` before any position: a message, the state is unchanged (not even a search object is allocated) -/
+theorem go_no_position :
+    uciStep OPS ⟨none, sa, li, q, k⟩ (strBytes "go depth") = .ok (⟨none, sa, li, q, k⟩, [.noPositionGo]) := by
+  rw [bytes_go_depth]; rfl
+
+/-- `setoption name currmoveLogInterval value 0` (was: stored, then integer divide by zero in the search):
+    the state is unchanged -/
+theorem setoption_zero_ignored :
+    uciStep OPS ⟨pos, sa, li, q, k⟩ (strBytes "setoption name currmoveLogInterval value 0") = .ok (⟨pos, sa, li, q, k⟩, []) := by
+  rw [bytes_setoption0]; rfl
+
+/-- `eval` before any position (was: nil dereference): a message, the state is unchanged -/
+theorem eval_no_position :
+    uciStep OPS ⟨none, sa, li, q, k⟩ (strBytes "eval") = .ok (⟨none, sa, li, q, k⟩, [.noPositionEval]) := by
+  rw [bytes_eval]; rfl
+
+/-- `perft 250` (depth beyond the generator's position stack): refused, the state is unchanged -/
+theorem perft_250_refused :
+    uciStep OPS ⟨pos, sa, li, q, k⟩ (strBytes "perft 250") = .ok (⟨pos, sa, li, q, k⟩, [.invalidDepth [50, 53, 48]]) := by
+  rw [bytes_perft250]; rfl
+
+/-- `perft -1`: refused, the state is unchanged -/
+theorem perft_negative_refused :
+    uciStep OPS ⟨pos, sa, li, q, k⟩ (strBytes "perft -1") = .ok (⟨pos, sa, li, q, k⟩, [.invalidDepth [45, 49]]) := by
+  rw [bytes_perftm1]; rfl
+
+/-- `position garbage moves e2e4` (was: nil dereference without a position; with an old position the moves
+    were applied to it): the FEN is rejected with "not 6 fields", the moves are not applied, the state —
+    whatever it was — is unchanged -/
+theorem position_garbage_moves (st : UciState) :
+    uciStep OPS st (strBytes "position garbage moves e2e4") = .ok (st, [.invalidFen .fields]) := by
+  rw [uciStep_position (by decide +kernel) (by decide +kernel) (by decide +kernel) (by decide +kernel)]
+  have hcmd : goStrEnv.trimSpace (trimPrefix (strBytes "position garbage moves e2e4") Gen.uPosition_bytes) =
+      strBytes "garbage moves e2e4" := by decide +kernel
+  show doPosition OPS st (goStrEnv.trimSpace (trimPrefix (strBytes "position garbage moves e2e4") Gen.uPosition_bytes)) = _
+  rw [hcmd]
+  have htake : goStrEnv.trimSpace ((strBytes "garbage moves e2e4").take 8) = strBytes "garbage" := by decide +kernel
+  exact doPosition_rejected_moves (i := 8) (by decide +kernel)
+    (by show hasPrefix (goStrEnv.trimSpace _) _ = false; rw [htake]; decide +kernel)
+    (by show hasPrefix (goStrEnv.trimSpace _) _ = false; rw [htake]; decide +kernel)
+    (by show parseFen (goStrEnv.trimSpace _) = _; rw [htake]; exact FenLemmas.rejectedWith_iff.1 (by decide +kernel))
+
+end regression
+
+/-- the regression lines on the operations the driver runs (`modelOps`), from a state with the start position -/
+example (blend : Blend) (tostr : Position → M Bytes) (st : UciState) :
+    uciStep (modelOps blend tostr) st (strBytes "position garbage moves e2e4") = .ok (st, [.invalidFen .fields]) :=
+  position_garbage_moves _ _ _ _ _ _ st
+
+example (blend : Blend) (tostr : Position → M Bytes) :
+    uciStep (modelOps blend tostr) ⟨some startPosition, false, 1000000, false, Killers.empty⟩ (strBytes "go depth") =
+      .ok (⟨some startPosition, true, 1000000, false, Killers.empty⟩, []) :=
+  go_depth_no_value _ _ _ _ _ _ _ _ _ _ _
 
 end Magog.Props.C17
